@@ -36,6 +36,8 @@ pub struct GenOpts {
     pub heap_pct: u64,
     pub targeted_bias: bool,
     pub call_granular: bool,
+    /// if call_granular: percentage of the runs that really are (the others are fine-grained)
+    pub call_granular_pct: u64,
     pub multi_iter: bool,
     /// chance (percent) that a chunk size is at the edge of usize (known-size kinds only)
     pub huge_pct: u64,
@@ -71,6 +73,7 @@ impl GenOpts {
             heap_pct: 0,
             targeted_bias: false,
             call_granular: false,
+            call_granular_pct: 100,
             multi_iter: false,
             huge_pct: 0,
             nonfused_pct: 0,
@@ -220,6 +223,7 @@ pub fn opts_for(prop: &str) -> GenOpts {
             o.pre_pct = 30;
             o.partial_pct = 40;
             o.call_granular = true;
+            o.call_granular_pct = 50;
         }
         "C19" => {
             o.kinds = vec![
@@ -252,6 +256,7 @@ pub fn opts_for(prop: &str) -> GenOpts {
             o.heap_pct = 70;
         }
         "C17" => {
+            o.w_skip = 6;
             o.w_composite = 8;
             o.w_query = 6;
             o.w_stop = 4;
@@ -597,7 +602,7 @@ pub fn generate_with(prop: &str, o: &GenOpts, base_seed: u64, index: u64) -> Run
     let mut sim = SimCfg::simple(nthreads, mix(&[run_seed, 0x5eed]));
     sim.strategy = strategy(&mut rng, o.targeted_bias);
     sim.step_cap = 60_000;
-    sim.call_granular = o.call_granular;
+    sim.call_granular = o.call_granular && rng.chance(o.call_granular_pct, 100);
     if nthreads >= 2 && rng.chance(o.freeze_pct, 100) {
         let forever = kind.known_size() || rng.chance(1, 3);
         sim.freeze = Some(Freeze {
